@@ -59,6 +59,9 @@ var up4GNBs = []string{"198.18.5.1", "198.18.5.2", "198.18.5.3"}
 type up4GenSess struct {
 	peer  int
 	live  bool
+	// frozen: a key-changing Update PDR was sent, whose outcome the open-loop generator cannot know; the
+	// session's PDRs are not re-stated any more
+	frozen bool
 	dlFAR model.FAR
 	pdrs  []model.PDR
 	qers  []model.QER
@@ -162,7 +165,7 @@ func genC04(ev *Ev) func(t *rapid.T) model.Case {
 					liveIdx = append(liveIdx, k)
 				}
 			}
-			switch rapid.SampledFrom([]string{"est", "est", "updfar", "updfar", "updfar", "del", "updqer", "updpdr"}).Draw(t, "k") {
+			switch rapid.SampledFrom([]string{"est", "est", "updfar", "updfar", "updfar", "del", "updqer", "updpdr", "updpdr-key"}).Draw(t, "k") {
 			case "est":
 				if len(liveIdx) >= 4 {
 					continue
@@ -178,6 +181,48 @@ func genC04(ev *Ev) func(t *rapid.T) model.Case {
 				nf := genUP4DLFAR(t, 2)
 				gs[si].dlFAR = nf
 				ops = append(ops, model.Op{Kind: "mod", Peer: gs[si].peer, Seq: seq, Sess: si, UpdFARs: []model.FAR{nf}, Note: "updfar"})
+			case "updpdr-key":
+				// an Update PDR that moves a rule to another table key (new TEID of an uplink PDR, new UE address
+				// of a downlink PDR). The UP4 plug-in writes modifications with MODIFY, which a P4Runtime switch
+				// refuses for a key it does not hold: the request must be rejected - or, if it is accepted, the
+				// tables must be the image of the new rules.
+				if len(liveIdx) == 0 {
+					continue
+				}
+				si := liveIdx[rapid.IntRange(0, len(liveIdx)-1).Draw(t, "si")]
+				var cand []model.PDR
+				alloc := false
+				for _, pd := range gs[si].pdrs {
+					alloc = alloc || pd.UEAlloc
+				}
+				for _, pd := range gs[si].pdrs {
+					if !pd.Choose && !alloc {
+						cand = append(cand, pd)
+					}
+				}
+				if len(cand) == 0 || gs[si].frozen {
+					continue
+				}
+				if excluded("up4UpdatePDRMovesToExistingKey") {
+					ev.Exclude("up4UpdatePDRMovesToExistingKey")
+				}
+				pd := cand[rapid.IntRange(0, len(cand)-1).Draw(t, "pdri")]
+				if pd.Src == "access" {
+					// a TEID no rule holds (KF-C04-D15: moving a rule onto a key that another rule of the session
+					// already holds is accepted and leaves the entry under the old key behind)
+					pd.TEID = 0x800000 | uint32(si+1)<<12 | uint32(rapid.IntRange(1, 0xfff).Draw(t, "nteid"))
+					if !excluded("up4UpdatePDRMovesToExistingKey") && rapid.IntRange(0, 3).Draw(t, "ontoexisting") == 0 {
+						for _, other := range gs[si].pdrs {
+							if other.Src == "access" && other.ID != pd.ID && !other.Choose {
+								pd.TEID = other.TEID
+							}
+						}
+					}
+				} else {
+					pd.UEIP = fmt.Sprintf("10.250.%d.%d", 201+si%50, 1+rapid.IntRange(0, 200).Draw(t, "nue"))
+				}
+				gs[si].frozen = true
+				ops = append(ops, model.Op{Kind: "mod", Peer: gs[si].peer, Seq: seq, Sess: si, UpdPDRs: []model.PDR{pd}, Note: "updpdr-key"})
 			case "updpdr":
 				// an Update PDR that re-states one of the session's PDRs (rules whose F-TEID or UE address the UP
 				// chose cannot be re-stated open-loop)
@@ -195,7 +240,7 @@ func genC04(ev *Ev) func(t *rapid.T) model.Case {
 						cand = append(cand, pd)
 					}
 				}
-				if len(cand) == 0 {
+				if len(cand) == 0 || gs[si].frozen {
 					continue
 				}
 				pd := cand[rapid.IntRange(0, len(cand)-1).Draw(t, "pdri")]
@@ -289,6 +334,10 @@ func runC04(c model.Case, ev *Ev) error {
 				return fmt.Errorf("INFRA: association rejected (datapath not connected?)")
 			}
 			continue
+		}
+		if !o.Accepted && op.Note == "updpdr-key" {
+			ev.Label("mod/updpdr-key/rejected")
+			continue // refused: nothing is claimed about the tables until the next accepted request
 		}
 		if !o.Accepted {
 			return fmt.Errorf("op %d: %s %s inside the UP4 envelope rejected with cause %d\n%s", i, op.Kind, op.Note, o.Cause, p4Diag(r, o.CmdFrom))
